@@ -3,6 +3,7 @@ package main
 import (
 	"bytes"
 	"fmt"
+	"io"
 
 	"github.com/foxboron/go-uefi/efi/signature"
 	"github.com/foxboron/go-uefi/efi/util"
@@ -144,6 +145,30 @@ func checkC10(r *mon.Run) {
 		if j.fixture {
 			r.Count("fixtures_roundtripped", 1)
 		}
+		// (2b) through readers that are not in-memory buffers: a bare io.Reader that
+		// counts what is pulled from it, and an io.SectionReader
+		for _, rk := range []string{"plain-reader", "section-reader"} {
+			var src io.Reader
+			cnt := &pullCounter{r: bytes.NewReader(j.buf)}
+			if rk == "plain-reader" {
+				src = cnt
+			} else {
+				cnt.r = io.NewSectionReader(bytes.NewReader(j.buf), 0, int64(len(j.buf)))
+				src = cnt
+			}
+			var a3 *signature.EFIVariableAuthentication2
+			var err3 error
+			if p := tryP(func() { a3, err3 = signature.ReadEFIVariableAuthencation2(src) }); p != "" || err3 != nil {
+				r.Violation("C10|Read-"+rk+"|rejected", fmt.Sprintf("%v %s", err3, p), replay)
+				return
+			}
+			restb, _ := io.ReadAll(src)
+			if !check("Read-"+rk, a3, cnt.n-len(restb), restb) {
+				return
+			}
+			r.Distinct(key("Read-" + rk))
+			r.Count("non_buffer_reader_decodes", 1)
+		}
 		// (3) Unmarshal(*bytes.Buffer)
 		var a2 signature.EFIVariableAuthentication2
 		bb := bytes.NewBuffer(append([]byte(nil), j.buf...))
@@ -264,4 +289,16 @@ func checkC10(r *mon.Run) {
 	r.Floor("fixtures_roundtripped", 3)
 	r.Floor("wincerts_roundtripped", int64(nb*9/10))
 	r.Floor("values_roundtripped", int64(nv*9/10))
+}
+
+// pullCounter is an io.Reader (and nothing else) that counts the bytes pulled from it.
+type pullCounter struct {
+	r io.Reader
+	n int
+}
+
+func (p *pullCounter) Read(b []byte) (int, error) {
+	n, err := p.r.Read(b)
+	p.n += n
+	return n, err
 }
